@@ -183,11 +183,24 @@ class HObj:
         return HObj(self.cls, self.fields, self.fresh, self.items)
 
 
-class HStruct:
-    """structured array: parallel field arrays"""
+class FieldType:
+    """the type string of one structured-dtype field (item type, size and byte order) as an opaque symbolic code, plus the
+    model kind of its cells; sub-array shapes travel as the optional third entry of the descr tuple"""
 
-    def __init__(self, n, fields, fresh=True):
+    def __init__(self, code, kind):
+        self.code, self.kind = code, kind
+
+    def __repr__(self):
+        return "FieldType(%s,%s)" % (self.code, self.kind)
+
+
+class HStruct:
+    """structured array: parallel field arrays (field order = dict order); ftype: name -> FieldType, fshape: name -> shape code"""
+
+    def __init__(self, n, fields, fresh=True, ftype=None, fshape=None):
         self.n, self.fields, self.fresh = n, dict(fields), fresh
+        self.ftype = dict(ftype or {})
+        self.fshape = dict(fshape or {})
 
 
 class HViewList:
